@@ -8,13 +8,14 @@ import (
 )
 
 type MultiLocalisedUnicode struct {
-	entriesByLanguageCountry map[[2]byte]map[[2]byte]string
+	// UTF-16BE encoded strings, referencing the tag data and decoded on demand
+	entriesByLanguageCountry map[[2]byte]map[[2]byte][]byte
 }
 
 func (mluc *MultiLocalisedUnicode) getAnyString() string {
 	for _, country := range mluc.entriesByLanguageCountry {
 		for _, s := range country {
-			return s
+			return decodeUTF16BE(s)
 		}
 	}
 	return ""
@@ -26,32 +27,40 @@ func (mluc *MultiLocalisedUnicode) getString(language [2]byte, country [2]byte) 
 		return ""
 	}
 
-	return countries[country]
+	return decodeUTF16BE(countries[country])
 }
 
 func (mluc *MultiLocalisedUnicode) getStringForLanguage(language [2]byte) string {
 	for _, s := range mluc.entriesByLanguageCountry[language] {
-		return s
+		return decodeUTF16BE(s)
 	}
 	return ""
 }
 
-func (mluc *MultiLocalisedUnicode) setString(language [2]byte, country [2]byte, text string) {
+func (mluc *MultiLocalisedUnicode) setString(language [2]byte, country [2]byte, textUTF16BE []byte) {
 	countries, ok := mluc.entriesByLanguageCountry[language]
 	if !ok {
-		countries = map[[2]byte]string{
-			country: text,
+		countries = map[[2]byte][]byte{
+			country: textUTF16BE,
 		}
 		mluc.entriesByLanguageCountry[language] = countries
 
 	} else {
-		countries[country] = text
+		countries[country] = textUTF16BE
 	}
+}
+
+func decodeUTF16BE(b []byte) string {
+	units := make([]uint16, len(b)/2)
+	for i := range units {
+		units[i] = uint16(b[2*i])<<8 | uint16(b[2*i+1])
+	}
+	return string(utf16.Decode(units))
 }
 
 func parseMultiLocalisedUnicode(data []byte) (MultiLocalisedUnicode, error) {
 	result := MultiLocalisedUnicode{
-		entriesByLanguageCountry: make(map[[2]byte]map[[2]byte]string),
+		entriesByLanguageCountry: make(map[[2]byte]map[[2]byte][]byte),
 	}
 
 	reader := bytes.NewReader(data)
@@ -114,15 +123,7 @@ func parseMultiLocalisedUnicode(data []byte) (MultiLocalisedUnicode, error) {
 			return result, fmt.Errorf("record exceeds tag data length")
 		}
 
-		recordStringBytes := data[stringOffset : stringOffset+stringLength]
-		recordStringUTF16 := make([]uint16, len(recordStringBytes)/2)
-		for j := 0; j < len(recordStringUTF16); j++ {
-			recordStringUTF16[j], err = binary.ReadU16Big(reader)
-			if err != nil {
-				return result, err
-			}
-		}
-		result.setString(language, country, string(utf16.Decode(recordStringUTF16)))
+		result.setString(language, country, data[stringOffset:stringOffset+stringLength])
 
 		// Skip to next record
 		for j := uint32(12); j < recordSize; j++ {
